@@ -254,8 +254,12 @@ def expected_after_roundtrip(stream, include, same_beat, join, oh, ot, n, g):
 
 
 class Composition(Bounded):
-    name = "ungroup-after-group"
     function = "simfile.notes.group.ungroup_notes o group_notes"
+    PARTS = 6
+
+    def __init__(self, part=0):
+        self.part = part
+        self.name = f"ungroup-after-group[{part + 1}/{self.PARTS}]"
 
     def bound(self, tier):
         r = 3 if tier == "quick" else 4
@@ -272,7 +276,9 @@ class Composition(Bounded):
         include = frozenset(T)
         cases, failures = 0, []
         pols = (g.OrphanedNotes.KEEP_ORPHAN, g.OrphanedNotes.DROP_ORPHAN)
-        for stream in grid_streams(2, rows, kinds):
+        for idx, stream in enumerate(grid_streams(2, rows, kinds)):
+            if idx % self.PARTS != self.part:
+                continue
             for sb, join in itertools.product(g.SameBeatNotes, (False, True)):
                 for oh, ot in (itertools.product(pols, pols) if join else [(pols[0], pols[0])]):
                     cases += 1
@@ -294,7 +300,7 @@ class Composition(Bounded):
         return dict(cases=cases, failures=failures, seconds=time.time() - t0)
 
 
-BOUNDED = [Composition()]
+BOUNDED = [Composition(k) for k in range(Composition.PARTS)]
 
 
 def witness_search(tier, seed):
